@@ -245,3 +245,159 @@ Proof.
 Qed.
 Print Assumptions gen_C12_channel_parseModes.
 Print Assumptions gen_C12_member_store_laws.
+
+(* generated-code tie, stage 5: the OBJECT GRAPH of package state.  Gen/GoTracker.v holds the Gallina
+   TRANSLATION (translator/go2heap.go, regenerated on every check run) of the Go bodies of
+   newNick, newChannel, NewTracker, nick.Nick, channel.Channel, nick.isOn, nick.addChannel /
+   delChannel, channel.addNick / delNick and of the methods of stateTracker, over an explicit heap:
+   a pointer to nick / channel / ChanPrivs is an address (None = nil), a composite literal or new
+   allocates at the counter, a field read or write goes through the heap (a missing object is a
+   panic), the maps live inline in their owner and hold addresses, Copy of a privilege pointer
+   reads the value, the snapshot literals become constructor applications, mutex calls are
+   dropped (C14 pins the locking), logging calls keep only the dereferences in their arguments,
+   and range over a map is a fold over the enumeration of the map, re-reading the map before each
+   round when the loop can delete from such a map (an entry removed before it is reached is
+   skipped, the value is the current one) and refused if the loop could add to it.  All types and
+   primitives are the fields of one class (GoTracker.heap_ops); GenEqTracker.impl_ops instantiates
+   it with the records of Model/TrackerImpl.v (the snapshot constructor sorts the channel map,
+   nick.parseModes is the function translated in GoFuncs.v on the mode record).  With that
+   instance every generated function EQUALS the hand-written im_ model used by the theorems above
+   (functions that do not write return only their result: with_state pairs it with the state). *)
+From Verif Require GoTracker GenEqTracker.
+Theorem gen_C12_tracker_helpers : forall eA eN s nk ch cp,
+  @GoTracker.go_nick_Nick (GenEqTracker.impl_ops eA eN) s (Some nk) = (r ← im_nick_snap eA s nk; Some (Some r))
+  /\ @GoTracker.go_channel_Channel (GenEqTracker.impl_ops eA eN) s (Some ch) = (r ← im_chan_snap eA s ch; Some (Some r))
+  /\ @GoTracker.go_nick_isOn (GenEqTracker.impl_ops eA eN) s (Some nk) (Some ch) = nk_isOn s nk ch
+  /\ @GoTracker.go_nick_addChannel (GenEqTracker.impl_ops eA eN) s (Some nk) (Some ch) (Some cp) = nk_addChannel s nk ch cp
+  /\ @GoTracker.go_nick_delChannel (GenEqTracker.impl_ops eA eN) s (Some nk) (Some ch) = nk_delChannel s nk ch
+  /\ @GoTracker.go_channel_addNick (GenEqTracker.impl_ops eA eN) s (Some ch) (Some nk) (Some cp) = ch_addNick s ch nk cp
+  /\ @GoTracker.go_channel_delNick (GenEqTracker.impl_ops eA eN) s (Some ch) (Some nk) = ch_delNick s ch nk
+  /\ @GoTracker.go_stateTracker_delNick (GenEqTracker.impl_ops eA eN) s (Some nk) = st_delNick eA s nk
+  /\ @GoTracker.go_stateTracker_delChannel (GenEqTracker.impl_ops eA eN) s (Some ch) = st_delChannel eA s ch.
+Proof.
+  intros. repeat split.
+  - apply GenEqTracker.go_nick_Nick_eq.
+  - apply GenEqTracker.go_channel_Channel_eq.
+  - apply GenEqTracker.go_nick_isOn_eq.
+  - apply GenEqTracker.go_nick_addChannel_eq.
+  - apply GenEqTracker.go_nick_delChannel_eq.
+  - apply GenEqTracker.go_channel_addNick_eq.
+  - apply GenEqTracker.go_channel_delNick_eq.
+  - apply GenEqTracker.go_stateTracker_delNick_eq.
+  - apply GenEqTracker.go_stateTracker_delChannel_eq.
+Qed.
+Theorem gen_C12_tracker_NewTracker : forall eA eN me,
+  @GoTracker.go_NewTracker (GenEqTracker.impl_ops eA eN) me = Some (im_new me).
+Proof. exact GenEqTracker.go_NewTracker_eq. Qed.
+Theorem gen_C12_tracker_NewNick : forall eA eN s n,
+  @GoTracker.go_stateTracker_NewNick (GenEqTracker.impl_ops eA eN) s n = im_NewNick eA s n.
+Proof. exact GenEqTracker.go_stateTracker_NewNick_eq. Qed.
+Theorem gen_C12_tracker_GetNick : forall eA eN s n,
+  GenEqTracker.with_state s (@GoTracker.go_stateTracker_GetNick (GenEqTracker.impl_ops eA eN) s n) = im_GetNick eA s n.
+Proof. exact GenEqTracker.go_stateTracker_GetNick_eq. Qed.
+Theorem gen_C12_tracker_NickInfo : forall eA eN s n i h r,
+  @GoTracker.go_stateTracker_NickInfo (GenEqTracker.impl_ops eA eN) s n i h r = im_NickInfo eA s n i h r.
+Proof. exact GenEqTracker.go_stateTracker_NickInfo_eq. Qed.
+Theorem gen_C12_tracker_NickModes : forall eA eN s n m,
+  @GoTracker.go_stateTracker_NickModes (GenEqTracker.impl_ops eA eN) s n m = im_NickModes eA s n m.
+Proof. exact GenEqTracker.go_stateTracker_NickModes_eq. Qed.
+Theorem gen_C12_tracker_NewChannel : forall eA eN s c,
+  @GoTracker.go_stateTracker_NewChannel (GenEqTracker.impl_ops eA eN) s c = im_NewChannel eA s c.
+Proof. exact GenEqTracker.go_stateTracker_NewChannel_eq. Qed.
+Theorem gen_C12_tracker_GetChannel : forall eA eN s c,
+  GenEqTracker.with_state s (@GoTracker.go_stateTracker_GetChannel (GenEqTracker.impl_ops eA eN) s c) = im_GetChannel eA s c.
+Proof. exact GenEqTracker.go_stateTracker_GetChannel_eq. Qed.
+Theorem gen_C12_tracker_Topic : forall eA eN s c t,
+  @GoTracker.go_stateTracker_Topic (GenEqTracker.impl_ops eA eN) s c t = im_Topic eA s c t.
+Proof. exact GenEqTracker.go_stateTracker_Topic_eq. Qed.
+Theorem gen_C12_tracker_Me : forall eA eN s,
+  GenEqTracker.with_state s (@GoTracker.go_stateTracker_Me (GenEqTracker.impl_ops eA eN) s) = im_Me eA s.
+Proof. exact GenEqTracker.go_stateTracker_Me_eq. Qed.
+Theorem gen_C12_tracker_IsOn : forall eA eN s c n,
+  GenEqTracker.with_state s (@GoTracker.go_stateTracker_IsOn (GenEqTracker.impl_ops eA eN) s c n) = im_IsOn s c n.
+Proof. exact GenEqTracker.go_stateTracker_IsOn_eq. Qed.
+Theorem gen_C12_tracker_Associate : forall eA eN s c n,
+  @GoTracker.go_stateTracker_Associate (GenEqTracker.impl_ops eA eN) s c n = im_Associate s c n.
+Proof. exact GenEqTracker.go_stateTracker_Associate_eq. Qed.
+(* second wave: the loops that delete from the map they range over *)
+Theorem gen_C12_tracker_ReNick : forall eA eN s old neu,
+  @GoTracker.go_stateTracker_ReNick (GenEqTracker.impl_ops eA eN) s old neu = im_ReNick eA s old neu.
+Proof. exact GenEqTracker.go_stateTracker_ReNick_eq. Qed.
+Theorem gen_C12_tracker_DelNick : forall eA eN s n,
+  @GoTracker.go_stateTracker_DelNick (GenEqTracker.impl_ops eA eN) s n = im_DelNick eA s n.
+Proof. exact GenEqTracker.go_stateTracker_DelNick_eq. Qed.
+Theorem gen_C12_tracker_DelChannel : forall eA eN s c,
+  @GoTracker.go_stateTracker_DelChannel (GenEqTracker.impl_ops eA eN) s c = im_DelChannel eA s c.
+Proof. exact GenEqTracker.go_stateTracker_DelChannel_eq. Qed.
+(* Dissociate logs ch.name on its "not on the channel" path: the generated code reads the channel
+   object there (in the heap model a dangling address is a panic; Go has none), the model does
+   not — hence the premise that the channel the tracker's map points to is allocated. *)
+Theorem gen_C12_tracker_Dissociate : forall eA eN s c n,
+  (forall ch, st_chans s !! c = Some ch -> is_Some (h_chan s !! ch)) ->
+  @GoTracker.go_stateTracker_Dissociate (GenEqTracker.impl_ops eA eN) s c n = im_Dissociate eA s c n.
+Proof. exact GenEqTracker.go_stateTracker_Dissociate_eq. Qed.
+Theorem gen_C12_tracker_Wipe : forall eA eN s,
+  @GoTracker.go_stateTracker_Wipe (GenEqTracker.impl_ops eA eN) s = im_Wipe eA eN s.
+Proof. exact GenEqTracker.go_stateTracker_Wipe_eq. Qed.
+(* ChannelModes: the call ch.parseModes(modes, args...) is the GoFuncs.v translation of channel.parseModes
+   (stage 4) instantiated on HEAP stores (GenEqChanModesHeap: a nick reference is an address,
+   ch.lookup the object's map, the store behind ch.nicks the object's map together with the
+   ChanPrivs heap; a write through ch.nicks[nk] updates that heap); it is proved to be the fold of
+   a step function (GenEqChanModesHeap.go_channel_parseModes_heap_eq), and that fold to be
+   ch_parseModes (GenEqTracker.fold_mk); a missing channel object panics on both sides. *)
+Theorem gen_C12_tracker_ChannelModes : forall eA eN s c modes args,
+  @GoTracker.go_stateTracker_ChannelModes (GenEqTracker.impl_ops eA eN) s c modes args = im_ChannelModes eA s c modes args.
+Proof. exact GenEqTracker.go_stateTracker_ChannelModes_eq. Qed.
+(* All sixteen methods at once, and composed with the refinement theorem above: GenEqTracker.go_step /
+   go_run run the GENERATED methods (go_step is im_step with each im_ function replaced by the
+   generated one).  On a state satisfying the representation invariant one generated step is the
+   model's step; hence for every operation sequence over the tracker built by the generated
+   NewTracker, under any enumeration that is a permutation of the map's entries, the generated
+   code does not panic and returns exactly the results of the plain model TrackerSpec. *)
+Theorem gen_C12_tracker_step : forall eA eN s o, rep_inv s ->
+  GenEqTracker.go_step eA eN s o = im_step eA eN s o.
+Proof.
+  intros eA eN s o I. apply GenEqTracker.go_step_eq. intros c ch H.
+  destruct (ri_chans s I c ch H) as (co & Hco & _). eauto.
+Qed.
+Lemma gen_C12_tracker_run_eq : forall eA eN,
+  (forall m, eA m ≡ₚ map_to_list m) -> (forall m, eN m ≡ₚ map_to_list m) ->
+  forall ops s, rep_inv s -> GenEqTracker.go_run eA eN s ops = im_run eA eN s ops.
+Proof.
+  intros eA eN HA HN. induction ops as [|o ops IH]; intros s I; [done|].
+  cbn [GenEqTracker.go_run im_run]. rewrite gen_C12_tracker_step by done.
+  destruct (C12_refines_op eA eN HA HN o s I) as (s' & r & E & I' & _). rewrite E. simpl.
+  by rewrite IH.
+Qed.
+Theorem gen_C12_tracker_refines : forall eA eN,
+  (forall m, eA m ≡ₚ map_to_list m) -> (forall m, eN m ≡ₚ map_to_list m) ->
+  forall me ops, exists s0 s' rs,
+    @GoTracker.go_NewTracker (GenEqTracker.impl_ops eA eN) me = Some s0
+    /\ GenEqTracker.go_run eA eN s0 ops = Some (s', rs)
+    /\ rs = snd (sp_run (sp_new me) ops).
+Proof.
+  intros eA eN HA HN me ops.
+  destruct (C12_refines eA eN HA HN me ops) as (s' & rs & E & _ & _ & Hr).
+  exists (im_new me), s', rs. split; [apply GenEqTracker.go_NewTracker_eq|]. split; [|done].
+  rewrite gen_C12_tracker_run_eq; [done..|]. apply rep_inv_new.
+Qed.
+Print Assumptions gen_C12_tracker_step.
+Print Assumptions gen_C12_tracker_refines.
+Print Assumptions gen_C12_tracker_ChannelModes.
+Print Assumptions gen_C12_tracker_helpers.
+Print Assumptions gen_C12_tracker_NewTracker.
+Print Assumptions gen_C12_tracker_NewNick.
+Print Assumptions gen_C12_tracker_GetNick.
+Print Assumptions gen_C12_tracker_NickInfo.
+Print Assumptions gen_C12_tracker_NickModes.
+Print Assumptions gen_C12_tracker_NewChannel.
+Print Assumptions gen_C12_tracker_GetChannel.
+Print Assumptions gen_C12_tracker_Topic.
+Print Assumptions gen_C12_tracker_Me.
+Print Assumptions gen_C12_tracker_IsOn.
+Print Assumptions gen_C12_tracker_Associate.
+Print Assumptions gen_C12_tracker_ReNick.
+Print Assumptions gen_C12_tracker_DelNick.
+Print Assumptions gen_C12_tracker_DelChannel.
+Print Assumptions gen_C12_tracker_Dissociate.
+Print Assumptions gen_C12_tracker_Wipe.
